@@ -6,7 +6,7 @@
    (Generated once by lib/cap.py from the capture; the per-run instances are regenerated from /repo
    on every check.) *)
 From Coq Require Import List NArith.
-From LogosV Require Import Engine.Model Engine.Cert Engine.Build Engine.Run Engine.GraphBuild Engine.ByteClass Engine.Prog Engine.Dedup Engine.Rename Properties.All.
+From LogosV Require Import Engine.Model Engine.Cert Engine.Build Engine.Run Engine.GraphBuild Engine.ByteClass Engine.Prog Engine.Dedup Engine.Rename Engine.StreamProofs Engine.Utf8Stream Properties.All.
 Import ListNotations.
 Open Scope N_scope.
 
@@ -78,3 +78,24 @@ Definition ex_Id := mk_pairing [(0, [0]); (1, [1]); (2, [2]); (3, [3]); (4, [4])
 Example ex_reordered : gsim_ok ex_g (rename_graph (leaf_map ex_swap) ex_g_swapped) ex_Id = true. Proof. vm_compute. reflexivity. Qed.
 Example ex_reordered_differs : gsim_ok ex_g ex_g_swapped ex_Id = false. Proof. vm_compute. reflexivity. Qed.
 Definition ex_C18_reordered := C18_reordered_leaves_agree ex_g ex_g_swapped ex_swap ex_Id ex_reordered.
+
+(* chunked feeding (C07): "aacab" fed as "a", "aac", "aaca", then whole: the skips and items of the one-shot lexing *)
+Definition ex_act : leaf -> N -> N -> action * N := fun _ _ _ => (AEmit, 0).
+Definition ex_id : N -> N := fun i => i.
+Example ex_chunked : chunked ex_g ex_act ex_id [97;97;99;97;98] (fun _ => ex_id) [1%nat; 3%nat; 4%nat] 0
+                     = lex_all (attempt_ref ex_g) ex_act ex_id [97;97;99;97;98] false.
+Proof. vm_compute. reflexivity. Qed.
+Example ex_chunked_value : fst (lex_all (attempt_ref ex_g) ex_act ex_id [97;97;99;97;98] false)
+                           = [RItem (Item true (Some 2) 0 3); RItem (Item false None 3 4); RItem (Item true (Some 1) 4 5)].
+Proof. vm_compute. reflexivity. Qed.
+Definition ex_C07_chunked := C07_chunked_is_oneshot ex_d ex_g ex_V ex_R ex_D ex_dfa_ok ex_sim_ok ex_exact_ok.
+
+(* str mode vs byte mode on the whole stream (C12): "a" then U+00E9 (C3 A9) then "b": str mode gives the errors 0..1 and 1..3,
+   byte mode 0..1, 1..2 and 2..3; cut into bytes they are the same stream *)
+Example ex_streams : split_errs (fst (lex_all (attempt_ref ex_g) ex_act (fb_str [97;195;169;98]) [97;195;169;98] false))
+                     = [RItem (Item false None 0 1); RItem (Item false None 1 2); RItem (Item false None 2 3); RItem (Item true (Some 1) 3 4)].
+Proof. vm_compute. reflexivity. Qed.
+Example ex_streams_str : fst (lex_all (attempt_ref ex_g) ex_act (fb_str [97;195;169;98]) [97;195;169;98] false)
+                     = [RItem (Item false None 0 1); RItem (Item false None 1 3); RItem (Item true (Some 1) 3 4)].
+Proof. vm_compute. reflexivity. Qed.
+Definition ex_C12_streams := C12_streams_agree ex_d ex_g ex_V ex_R ex_D ex_PU ex_dfa_ok ex_sim_ok ex_exact_ok ex_utf8_ok ex_utf8_strict_ok.
